@@ -17,8 +17,8 @@ def run(ctx):
         if case["group"] == "cut":
             # no time limit and the clock jumps by four months in mid-search (driver mode k): C16_clock_free
             return "k" in case["specs"][0]
-        return case["group"] in ("value", "seq") and not (dv.get("spec") or "").endswith("x")
-    r = SP.corr(ctx, prop, ("value", "seq", "cut"), relevant,
+        return case["group"] in ("value", "seq", "material") and not (dv.get("spec") or "").endswith("x")
+    r = SP.corr(ctx, prop, ("value", "seq", "cut", "material"), relevant,
                 "fixed-depth search differs from the model function (best move / score / node count / cache writes)",
                 violations, cov)
     # runtime evidence (not proof): the same cases again in one process, in a second process and
@@ -56,6 +56,8 @@ def run(ctx):
         # deeper searches (engine only, no model at this depth): twice in one process and once more in a second process
         deep = ["8/8/1p4p1/p1p2k1p/P2npP1P/4K1P1/1P6/3R4 w - - 6 54 |  | d%d" % (10 if ctx["tier"] == "quick" else 11),
                 "r3k2r/p1ppqpb1/bn2pnp1/3PN3/1p2P3/2N2Q1p/PPPBBPPP/R3K2R w KQkq - 0 1 |  | d%d" % (5 if ctx["tier"] == "quick" else 7)]
+        # a search that caches several hundred thousand positions (the map grows through many reallocations; `clear` keeps the capacity)
+        deep.append("8/2p5/3p4/KP5r/1R3p1k/8/4P1P1/8 w - - 0 1 |  | d%dq" % (11 if ctx["tier"] == "quick" else 13))
         dinp = "".join(x + "\n" for x in deep)
         sigs = []
         for _ in range(2):
